@@ -114,6 +114,9 @@ def tla_rec(r, exp=None, pred=None, pp=None):
     o["pp"] = pp if pp is not None else {"k": "", "line": 0}
     o["hasdisk"] = False
     o["disk"] = {"exit": 0, "h": ""}
+    o["disk2"] = {"exit": 0, "h": ""}      # after a second `spok --fmt`
+    o["hasdtree"] = False                  # the tree the parser reads from the file `spok --fmt` left on disk
+    o["dtree"] = []
     o["fmth"] = ""
     o["origh"] = ""
     return o
@@ -156,6 +159,10 @@ HANDMADE = [
     b'# Version\nVERSION := exec("echo 1.2.3")\nNAME := "spok"\n\n# Say it\ntask say() {\n    echo "{{.NAME}} \\\n  {{.VERSION}}"\n    echo done\n}\n',
     b'task a() {\n\techo one \\\n\techo two\n}\n\ntask b(a) { echo b }\n',
     b'A := "1"\nB := join(A)\nC := exec(A)\n',
+    # what the application does to the tree between parsing and printing must not show in `--fmt`: a value that is itself a template,
+    # statements and comments below the last task, a task between two variables
+    b'X := "{{.Y}} z"\nY := "y"\n\n# T\ntask t() {\n    echo {{.X}}\n    echo {{.Y}} {{.X}}\n}\n',
+    b'# first\ntask a() {\n    echo a\n}\n\n# between\nV := "v"\n\n# second\ntask b(a) {\n    echo {{.V}}\n}\n\n# trailing\nW := "w"\n# the end\n',
     b'DIST := join("dist", "pkg")\n# Pack\ntask pack("*.txt") -> (DIST, "out.tar") {\n    tar cf out.tar *.txt\n}\n\n# Default\ntask default(pack) {\n    echo ok\n}\n',
 ]
 
@@ -221,12 +228,12 @@ def run(ctx):
         items = [items[k] for k in keep]
         raw = [raw[k] for k in keep]
     recs = [tla_rec(r, it[1], it[2]) for r, it in zip(raw, items)]
-    if pid == "C07":
+    if pid in DISKREL:
         fmt_on_disk(ctx, items, raw, recs)
     v = judge(ctx, recs)
     bad = v.get(rel, [])
-    if pid == "C07":
-        bad = bad + [i for i in v.get("FmtOnDisk_C07", []) if i not in set(bad)]
+    if pid in DISKREL:
+        bad = bad + [i for i in v.get(DISKREL[pid], []) if i not in set(bad)]
     drift = len(v.get("Drift_Toks", []))
     pdrift = len(v.get("Drift_Parse", []))
     fdrift = len(v.get("Drift_Fmt", []))
@@ -257,15 +264,18 @@ def run(ctx):
         again = drive(ctx, driver, [b], procs=1)
         rec2 = tla_rec(again[0], exp, None)
         rel_i = rel
-        if pid == "C07" and i in set(v.get("FmtOnDisk_C07", [])) and i not in set(v.get(rel, [])):
-            rel_i = "FmtOnDisk_C07"
+        if pid in DISKREL and i in set(v.get(DISKREL[pid], [])) and i not in set(v.get(rel, [])):
+            rel_i = DISKREL[pid]
+            shape = shape + "/on-disk"
             fmt_on_disk(ctx, [items[i]], again, [rec2])
         v2 = judge(ctx, [rec2])
         if not v2.get(rel_i):
             ctx.unreproduced = getattr(ctx, "unreproduced", 0) + 1
             continue
         vlib.report(ctx, "%s:%s" % (rel_i, shape), "%s fails on %d-byte input %r (%s): %s" % (rel_i, len(b), b[:120], src,
-                    describe(pid, again[0]) if rel_i == rel else "after `spok --fmt` (exit %s) the file on disk is not the formatter's output" % rec2["disk"]["exit"]),
+                    describe(pid, again[0]) if rel_i == rel else {"FmtOnDisk_C07": "after `spok --fmt` (exit %s) the file on disk is not the formatter's output" % rec2["disk"]["exit"],
+                                                                  "FmtOnDisk_C11": "a second `spok --fmt` (exit %s) changes the file the first one (exit %s) wrote" % (rec2["disk2"]["exit"], rec2["disk"]["exit"]),
+                                                                  "KeptOnDisk_C15": "the file `spok --fmt` left on disk does not have the comments / docstrings of the original"}[rel_i]),
                     {"property": pid, "family": "syntax", "relation": rel, "input_hex": b.hex(), "input": b.decode("utf8", "replace"),
                      "expected_tree": exp, "observed": slim(again[0])})
         reported += 1
@@ -298,9 +308,15 @@ def run(ctx):
                     "a parse not returning within 8 s is a hang"])
 
 
+DISKREL = {"C07": "FmtOnDisk_C07", "C11": "FmtOnDisk_C11", "C15": "KeptOnDisk_C15"}
+
+
 def fmt_on_disk(ctx, items, raw, recs):
     """C07's last sentence: `spok --fmt` overwrites the user's file in place.  A sample of the inputs that parse is written to a
-    sandbox project, formatted with the built binary (as nobody), and the bytes left on disk are recorded next to the library result."""
+    sandbox project, formatted with the built binary (as nobody) TWICE, and the bytes left on disk after each are recorded next to the
+    library result (C07: the first is the formatter's text; C11: the second changes nothing; C15: the file left on disk, parsed again,
+    has the comments and docstrings of the original -- the application loads the spokfile between parsing and printing, and nothing it
+    does there may show)."""
     import hashlib
     import fam_cli
     cand = []
@@ -320,16 +336,31 @@ def fmt_on_disk(ctx, items, raw, recs):
     n = 300 if ctx.tier == "quick" else 3000
     pick = list(dict.fromkeys(special[: n // 2] + cand[:n]))[:n]
     scen = [{"id": k + 1, "files": [{"p": "proj/", "dir": True}, {"p": "proj/spokfile", "c": items[i][0].decode("utf8")}],
-             "steps": [{"cwd": "proj", "argv": ["--fmt"], "env": {}}]} for k, i in enumerate(pick)]
+             "steps": [{"cwd": "proj", "argv": ["--fmt"], "env": {}}, {"cwd": "proj", "argv": ["--fmt"], "env": {}}]} for k, i in enumerate(pick)]
     out = fam_cli.drive(ctx, scen, "fmt")
+    texts = {}
     for i, o in zip(pick, out):
-        st = o["steps"][0]
+        st, st2 = o["steps"][0], o["steps"][1]
         h = [e["h"] for e in st["after"] if e["p"] == ["proj", "spokfile"]]
+        h2 = [e["h"] for e in st2["after"] if e["p"] == ["proj", "spokfile"]]
         recs[i]["hasdisk"] = True
         recs[i]["disk"] = {"exit": st["exit"], "h": h[0] if h else "missing"}
+        recs[i]["disk2"] = {"exit": st2["exit"], "h": h2[0] if h2 else "missing"}
+        tx = [e.get("text") for e in st["after"] if e["p"] == ["proj", "spokfile"]]
+        if ctx.pid == "C15" and st["exit"] == 0 and tx and tx[0] and hashlib.sha256(tx[0].encode("utf8")).hexdigest() == recs[i]["disk"]["h"]:
+            texts[i] = tx[0].encode("utf8")
         recs[i]["fmth"] = hashlib.sha256(bytes.fromhex(raw[i]["fmt"])).hexdigest()
         recs[i]["origh"] = hashlib.sha256(items[i][0]).hexdigest()
-    log("C07: %d parsed inputs also formatted in place with `spok --fmt` (binary, as nobody)" % len(pick))
+    if texts:
+        idx = sorted(texts)
+        again = drive(ctx, vlib.build_driver(ctx), [texts[i] for i in idx])
+        for i, a in zip(idx, again):
+            if a.get("outcome") == "ok" and a["p1"]["ok"]:
+                recs[i]["hasdtree"], recs[i]["dtree"] = True, a["p1"]["tree"]
+            elif a.get("outcome") == "ok":
+                recs[i]["hasdtree"], recs[i]["dtree"] = True, []         # the file left on disk does not parse: nothing is kept
+    log("%s: %d parsed inputs also formatted in place with `spok --fmt`, twice (binary, as nobody)%s" % (
+        ctx.pid, len(pick), "; %d files read back from disk and parsed" % len(texts) if texts else ""))
 
 
 def shape_of(pid, r, b):
